@@ -615,9 +615,12 @@ class C04(Check):
         "warnings are not observed; lnk is a character span or absent",
         "the isomorphism clause is checked by mrs.is_isomorphic and by an independent backtracking search; proved only in "
         "positional form (arguments, handle constraints, label sharing per position: PropsRT.lean §3)",
-        "second_conversion_stable_partial carries the decidable hypothesis RepsAgree (representatives of m and of the "
-        "MRS that comes back sit at the same positions); the driver evaluates it, with RolesOk / IVSorts / RstrLinked / "
-        "BaseIdsDistinct, on every case and the run fails if one is false on a case of the space without a starved group",
+        "second_conversion_stable is proved from hypotheses on m alone (BaseIdsDistinct, RolesOk, IVSorts, RstrLinked, "
+        "ScopesHeld, NoDescArg); second_conversion_stable_partial replaces the last two by the decidable RepsAgree. The "
+        "driver evaluates all of them on every case; the run fails if BaseIdsDistinct/RolesOk/IVSorts/RstrLinked/"
+        "ScopesHeld/RepsAgree is false on a case of the space without a starved group; NoDescArg (no argument into a "
+        "scopal descendant of a co-member) fails on about 1% of those cases, which are covered by the partial theorem "
+        "only (extra_evidence: noDescArg)",
         "DMRS identifies the variable a quantifier binds with the target of its RSTR link (first representative of the "
         "restriction): MRSs whose quantifier binds another member of the restriction are counted as outside the space "
         "(the round trip rebinds the quantifier); likewise intrinsic variables of sorts outside x/e/i/p/u "
@@ -629,6 +632,81 @@ class C04(Check):
 
     def __init__(self):
         self._impl_cache = {}
+
+    # ---- pins: the constants of the anchored code the hand-written model mirrors
+    def tables(self):
+        """Read on every run from the live modules / code objects (`co_consts`, nested code objects of inner
+        functions and comprehensions included, in order; docstrings, message texts, None/bool and keyword-name
+        tuples dropped) into lean/Verif/Generated/TablesC04.lean; compared with literal copies by `c04_pins`."""
+        import types
+        from .common import tables as T
+        from delphin.dmrs import _dmrs, _operations as dops
+        from delphin.mrs import _mrs, _operations as mops2
+        lit = T.lean_strlit
+
+        def flat(fn):
+            code = fn.__code__ if hasattr(fn, "__code__") else fn
+            doc = getattr(fn, "__doc__", None)
+            out = []
+            for c in code.co_consts:
+                if isinstance(c, types.CodeType):
+                    out += flat(c)
+                elif isinstance(c, bool) or c is None or isinstance(c, tuple):
+                    continue
+                elif isinstance(c, str):
+                    if c == doc or " " in c.strip() or c.endswith(": "):
+                        continue            # docstrings and warning / exception message texts
+                    out.append(c)
+                elif isinstance(c, int):
+                    out.append(str(c))
+                elif isinstance(c, frozenset):
+                    out.append("{" + ",".join(sorted(map(str, c))) + "}")
+                else:
+                    out.append(repr(c))
+            return out
+
+        def pairs(name, items):
+            return "def %s : List (String × String) := [%s]" % (
+                name, ", ".join("(%s, %s)" % (lit(k), lit(str(v))) for k, v in items))
+
+        def mod_consts(mod, names):
+            return [(n, getattr(mod, n)) for n in names]
+        funcs = [
+            ("dmrs.from_mrs", dops.from_mrs), ("dmrs._mrs_get_top", dops._mrs_get_top),
+            ("dmrs._mrs_to_nodes", dops._mrs_to_nodes), ("dmrs._mrs_to_links", dops._mrs_to_links),
+            ("mrs.from_dmrs", mops2.from_dmrs), ("mrs._dmrs_build_maps", mops2._dmrs_build_maps),
+            ("DMRS.scopes", _dmrs.DMRS.scopes), ("DMRS.arguments", _dmrs.DMRS.arguments),
+            ("DMRS.scopal_arguments", _dmrs.DMRS.scopal_arguments), ("DMRS.is_quantifier", _dmrs.DMRS.is_quantifier),
+            ("DMRS.quantification_pairs", _dmrs.DMRS.quantification_pairs),
+            ("dmrs._normalize_top_and_links", _dmrs._normalize_top_and_links),
+            ("Node.__init__", _dmrs.Node.__init__),
+            ("scope.representatives", scope.representatives),
+            ("scope._make_representative_priority", scope._make_representative_priority),
+            ("scope.conjoin", scope.conjoin), ("scope._descendants", scope._descendants),
+            ("VariableFactory.__init__", variable.VariableFactory.__init__),
+            ("VariableFactory.new", variable.VariableFactory.new),
+            ("EP.__init__", _mrs.EP.__init__), ("mrs._uniquify_ids", _mrs._uniquify_ids),
+            ("MRS.arguments", _mrs.MRS.arguments), ("MRS.scopal_arguments", _mrs.MRS.scopal_arguments),
+            ("MRS.scopes", _mrs.MRS.scopes), ("MRS.properties", _mrs.MRS.properties),
+        ]
+        defaults = [(n, repr((getattr(f, "__defaults__", None), getattr(f, "__kwdefaults__", None))))
+                    for n, f in funcs if getattr(f, "__defaults__", None) or getattr(f, "__kwdefaults__", None)]
+        return [
+            pairs("c04DmrsModuleConsts", mod_consts(_dmrs, [
+                "TOP_NODE_ID", "FIRST_NODE_ID", "RESTRICTION_ROLE", "BARE_EQ_ROLE", "EQ_POST", "HEQ_POST",
+                "NEQ_POST", "H_POST", "NIL_POST", "CVARSORT"])),
+            pairs("c04MrsModuleConsts", mod_consts(_mrs, [
+                "INTRINSIC_ROLE", "RESTRICTION_ROLE", "BODY_ROLE", "CONSTANT_ROLE", "_QUANTIFIER_TYPE"])),
+            pairs("c04VariableModuleConsts", mod_consts(variable, [
+                "UNSPECIFIC", "INDIVIDUAL", "INSTANCE_OR_HANDLE", "EVENTUALITY", "INSTANCE", "HANDLE"])
+                + [("_variable_re.pattern", variable._variable_re.pattern),
+                   ("_variable_re.flags", variable._variable_re.flags)]),
+            pairs("c04ScopeModuleConsts", mod_consts(scope, ["LEQ", "LHEQ", "OUTSCOPES", "QEQ"])
+                  + [("_UNTENSED_VALUES", "{" + ",".join(sorted(scope._UNTENSED_VALUES)) + "}")]),
+            "def c04FuncConsts : List (String × List String) := [\n%s]" % ",\n".join(
+                "  (%s, [%s])" % (lit(n), ", ".join(lit(c) for c in flat(f))) for n, f in funcs),
+            pairs("c04Defaults", defaults),
+        ]
 
     # ---- generators
     def cases(self, rng, tier, n):
@@ -732,7 +810,12 @@ class C04(Check):
             # (outside the input class of F08): evaluated by the model on every such case
             m = semgen.mrs_from_json(case["m"])
             if in_space(case["m"], m) is None and not starved_scopes(m):
-                bad = [k for k in ("baseIdsNodup", "rolesOk", "ivSorts", "rstrLinked", "repsAgree") if not hyp.get(k)]
+                bad = [k for k in ("baseIdsNodup", "rolesOk", "ivSorts", "rstrLinked", "scopesHeld", "repsAgree")
+                       if not hyp.get(k, True)]
+                # NoDescArg (the extra hypothesis of second_conversion_stable) is not implied by the space:
+                # counted, and RepsAgree is required regardless
+                self._nodesc = getattr(self, "_nodesc", {"holds": 0, "fails": 0})
+                self._nodesc["holds" if hyp.get("noDescArg", True) else "fails"] += 1
                 if bad:
                     return {"hypotheses_of_second_conversion_stable_fail": bad}
         a = {k: v for k, v in answer.items() if k != "hyp"}
@@ -986,6 +1069,9 @@ class C04(Check):
                 inc("inside:starved-scope(F08)")
             if [canon(e["args"][0][1][1]) for e in mj["rels"]] != sorted(canon(e["args"][0][1][1]) for e in mj["rels"]):
                 inc("inside:ids-not-in-position-order")
+
+    def extra_evidence(self):
+        return {"noDescArg_on_space_without_starved_group": getattr(self, "_nodesc", None)}
 
     def shrink(self, case, still_fails):
         cur = case
